@@ -38,7 +38,11 @@ Inductive ccond :=
 (* tracing function only (Tracer/CSkelTrace.v) *)
 | KNe (a b : cexp)
 | KNotField (f : string)         (* !ctx->f *)
-| KNotReserve (x : string).      (* !_reserve_er_space(ctx, x) *)
+| KNotReserve (x : string)       (* !_reserve_er_space(ctx, x) *)
+(* packet opening / closing functions only (Tracer/CSkelOC.v) *)
+| KAnd (a b : ccond)
+| KNotLocal (x : string)         (* !x  (local variable) *)
+| KField (f : string).           (* ctx->f *)
 
 Inductive cstmt :=
 | SIf (c : ccond) (body : list cstmt)
@@ -57,7 +61,12 @@ Inductive cstmt :=
 | SLocalSize (x : string)        (* x = _er_size_<dst>_<ert>(ctx, ...); *)
 | SSerialize                     (* _serialize_er_<dst>_<ert>(ctx, ...); *)
 | SCallFn (fn : string)          (* _fn(ctx); *)
-| SReturnVoid.                   (* return; *)
+| SReturnVoid                    (* return; *)
+(* packet opening / closing functions only (Tracer/CSkelOC.v) *)
+| SPreamble (member : string)    (* {{ macros.open_close_func_preamble(dst, <feature field type of member>) }} *)
+| SSerializePH                   (* {{ pkt_header_op.serialize_str(dst=dst) }} *)
+| SSerializePC                   (* {{ this_ds_ops.pkt_ctx_op.serialize_str(dst=dst) }} *)
+| SWriteSaved (name src : string).   (* the "go back to <name> field offset and write <src>" block *)
 
 Record cfun := mk_cfun { cf_params : list string; cf_body : list cstmt }.
 
